@@ -73,9 +73,17 @@ class AbstractOnlineUpdateVisitor(AbstractAstVisitor):
         self.results[node] = sample_return
         return sample_return
 
+    def reuse(self, node):
+        # An equally named node was already evaluated in this update: take over its
+        # value, and those of its sub-formulas, without stepping the shared operators.
+        for child in node.children:
+            self.reuse(child)
+        self.results[node] = self.updated[node.name]
+        return self.results[node]
+
     def visitBinary(self, node, online_operator_dict, var_object_dict):
         if node.name in self.updated:
-            sample_return = self.updated[node.name]
+            sample_return = self.reuse(node)
         else:
             sample_left  = self.visit(node.children[0], online_operator_dict, var_object_dict)
             sample_right = self.visit(node.children[1], online_operator_dict, var_object_dict)
@@ -87,7 +95,7 @@ class AbstractOnlineUpdateVisitor(AbstractAstVisitor):
 
     def visitUnary(self, node, online_operator_dict, var_object_dict):
         if node.name in self.updated:
-            sample_return = self.updated[node.name]
+            sample_return = self.reuse(node)
         else:
             sample = self.visit(node.children[0], online_operator_dict, var_object_dict)
             op = online_operator_dict[node.name]
@@ -101,5 +109,6 @@ class AbstractOnlineUpdateVisitor(AbstractAstVisitor):
             sample_return = self.visitConstant(node, online_operator_dict, var_object_dict)
         elif isinstance(node, Variable):
             sample_return = self.visitVariable(node, online_operator_dict, var_object_dict)
+        self.updated[node.name] = sample_return
         self.results[node] = sample_return
         return sample_return
